@@ -53,7 +53,7 @@ def check(ro):
     if ok and not tclose(v, ro_start):
         mism('ro.start_time', ro_start, v)
     ok, v = call(ro, 'duration', fails, PROP, 'RunningOrder')
-    if ok and all_timed and not close(v, sum(durs) if durs else 0):
+    if ok and all_timed and not close(v, sum(durs) if durs else 0) and not (not durs and v is None):
         mism('ro.duration', sum(durs), v)
     t = 0.0
     last_end = None
